@@ -138,11 +138,9 @@ Proof. intros H. cbn. rewrite H, Z.eqb_refl. reflexivity. Qed.
 Theorem block_then_not_delivered l g s l' : gstep l (GBlock g s) = (l', 0) -> delivers l' g s = false.
 Proof.
   cbn. unfold src_op. destruct (mfind g l) as [m|]; [|cbn; intros H; inversion H].
-  destruct (m_srcs m) as [|x r] eqn:Es.
-  - cbn. intros H; inversion H; subst. unfold delivers. rewrite mfind_head by reflexivity. cbn. unfold zmem; cbn. rewrite Z.eqb_refl. reflexivity.
-  - destruct (Bool.eqb (m_any m) true); [|intros H; inversion H].
-    destruct (zmem s (x :: r)) eqn:Ez; intros H; inversion H; subst.
-    unfold delivers. rewrite mfind_head by reflexivity. cbn [m_any m_srcs]. unfold zmem; cbn [existsb]. rewrite Z.eqb_refl. reflexivity.
+  destruct (m_alloc m && negb (Bool.eqb (m_any m) true)); [intros H; inversion H|].
+  destruct (zmem s (m_srcs m)) eqn:Ez; intros H; inversion H; subst.
+  unfold delivers. rewrite mfind_head by reflexivity. cbn [m_any m_srcs]. unfold zmem; cbn [existsb]. rewrite Z.eqb_refl. reflexivity.
 Qed.
 
 Theorem joinsource_then_only_that_source l g s l' :
